@@ -307,12 +307,18 @@ def _job(args):
         out["notes"] = ex.notes[:10]
         out["samples"] = ex.samples
         # replay counterexamples on the unpatched code (dedupe by label)
-        seen = {}
+        # at most 8 per predicate, spread evenly over the exploration order (neighbouring paths share their discrete
+        # choices, so the first few counterexamples are near-duplicates)
+        by_label = {}
         for cx in ex.cex:
-            key = cx.label
-            if seen.get(key, 0) >= 5:
-                continue
-            seen[key] = seen.get(key, 0) + 1
+            by_label.setdefault(cx.label, []).append(cx)
+        chosen = []
+        for key, lst in by_label.items():
+            if len(lst) > 8:
+                step = (len(lst) - 1) / 7.0
+                lst = [lst[int(round(i * step))] for i in range(8)]
+            chosen.extend(lst)
+        for cx in chosen:
             inputs = getattr(cx, "inputs", {})
             try:
                 rep, detail = run_replay(h, _unjson(_jsonable(inputs)), cx.label, params)
@@ -696,6 +702,8 @@ class Dual:
         self.inputs = inputs or {}
         self.violated = {}
         self.np = facade.FACADE if self.sym else np
+        self.resample = None     # replay only: a RandomState that re-draws the continuous inputs (see dual_harness)
+        self.drawn = {}
 
     def fl(self, name, lo=None, hi=None, nan=False, inf=False):
         if self.sym:
@@ -707,6 +715,13 @@ class Dual:
                 self.c.assume(core.b_or(tagged, x.r <= hi))
             rec(self.c, name, x)
             return x
+        if self.resample is not None:
+            a, b = (-4.0 if lo is None else lo), (4.0 if hi is None else hi)
+            if b < a:
+                b = a + 8.0
+            v = float(np.round(self.resample.uniform(a, b), 3))
+            self.drawn[name] = v
+            return v
         return float(self.inputs.get(name, 0.0 if lo is None else lo))
 
     def integer(self, name, lo, hi):
@@ -778,19 +793,26 @@ class Dual:
         return core.s_lt(a, b) if self.sym else bool(a < b)
 
 
-def dual_harness(name, scenario, configs, units, **kw):
-    """Harness whose symbolic run and replay share one scenario(d: Dual, **params) function"""
+def dual_harness(name, scenario, configs, units, resample=0, **kw):
+    """Harness whose symbolic run and replay share one scenario(d: Dual, **params) function.
+    resample=k (opt-in, only for scenarios without solver-side assumptions on their continuous inputs): when the solver's
+    values do not reproduce - typically because the concrete run uses a real model where the symbolic run used an
+    uninterpreted one - the replay keeps the counterexample's discrete choices (label patterns, operations) and re-draws
+    the continuous inputs k times inside their declared ranges; a violation on the real code is reported with those inputs."""
     def sym(c, **params):
         scenario(Dual(c), **params)
 
     def replay(inputs, label, **params):
-        tries = [inputs]
+        tries = [(inputs, None)] + [(inputs, np.random.RandomState(1000 + i)) for i in range(resample)]
         last = "not reproduced"
-        for inp in tries:
+        for inp, rs in tries:
             d = Dual(None, inp)
+            d.resample = rs
             shown = {k: v for k, v in inp.items() if not k.startswith("__")}
             try:
                 scenario(d, **params)
+                if rs is not None:
+                    shown = dict(shown, **d.drawn)
             except (ValueError, TypeError, IndexError, ZeroDivisionError, FloatingPointError, AttributeError,
                     UnboundLocalError, KeyError) as e:
                 # the unpatched code fails on the solver's inputs where the property promises a result
